@@ -792,7 +792,9 @@ fn dump_adt<'tcx>(tcx: TyCtxt<'tcx>, did: DefId, out: &mut String) {
     };
     let sm = tcx.sess.source_map();
     let loc = sm.lookup_char_pos(tcx.def_span(did).lo());
-    let _ = write!(out, ",\"kind\":\"{}\",\"file\":", kind);
+    let adt_ty = tcx.type_of(did).instantiate_identity().skip_norm_wip();
+    let adt_freeze = adt_ty.is_freeze(tcx, TypingEnv::post_analysis(tcx, did));
+    let _ = write!(out, ",\"kind\":\"{}\",\"freeze\":{},\"generic\":{},\"file\":", kind, adt_freeze, !tcx.generics_of(did).is_empty());
     esc(out, &format!("{}", loc.file.name.prefer_local_unconditionally()));
     let _ = write!(out, ",\"line\":{},\"variants\":[", loc.line);
     for (vi, v) in adt.variants().iter().enumerate() {
